@@ -82,11 +82,47 @@ def fault_space_size(fmt, ntoks):
     return (ntoks - 1) + ntoks + ntoks + ntoks * len(FORMATS[fmt][2])
 
 
+DELIMITERS = {"verilog": {"module", "endmodule", "`celldefine", "`endcelldefine"}, "eblif": {".model", ".end"}, "edif": set()}
+
+
+def structural(fmt, text):
+    """Loss or doubling of a structure delimiter (module/endmodule, .model/.end): two declarations merge into one or nest -
+    the faults behind recursive or half-closed structures.  A small class, always run completely."""
+    tok, join, _, _ = FORMATS[fmt]
+    toks = tok(text)
+    out = []
+    for i, t in enumerate(toks):
+        if t in DELIMITERS[fmt]:
+            out.append(("delimiter-lost", i, join(toks[:i] + toks[i + 1:])))
+            out.append(("delimiter-doubled", i, join(toks[:i + 1] + toks[i:])))
+    return out
+
+
 def edif_dangling(text):
     """One corrupted text per reference (cellRef / libraryRef / portRef / instanceRef / member / design cellRef)
     retargeted to an undeclared identifier."""
     toks = tok_edif(text)
     out = []
+    # near misses: the ORIGINAL NAME of a renamed element - (rename id "orig") - is not an identifier; when it is a legal
+    # identifier that nothing declares, a reference of the matching kind retargeted to it is as dangling as one to
+    # zz_undeclared (up to three nearest original names per reference, i.e. those of the same cell first)
+    declared = set(t.lower() for t in toks if not t.startswith('"'))
+    origs = []      # (kind of the renamed element, token position, original name)
+    for i in range(2, len(toks) - 3):
+        if toks[i] == "(" and toks[i + 1].lower() == "rename" and toks[i + 3].startswith('"'):
+            o = toks[i + 3].strip('"')
+            kind = toks[i - 1].lower() if toks[i - 2] == "(" else "?"
+            if kind == "array" and i >= 4:
+                kind = toks[i - 3].lower()
+            if re.fullmatch(r"[A-Za-z][A-Za-z0-9_]*", o) and o.lower() not in declared:
+                origs.append((kind, i, o))
+    want_kind = {"cellref": "cell", "libraryref": "library", "instanceref": "instance", "portref": "port", "member": "port"}
+    for i, t in enumerate(toks[:-1]):
+        tl = t.lower()
+        if tl in want_kind and toks[i + 1] not in "()":
+            near = sorted((abs(p_ - i), o) for k_, p_, o in origs if k_ == want_kind[tl])[:3]   # the nearest ones: same cell first
+            for _, o in near:
+                out.append(("dangling:%s-to-an-original-name" % tl, i + 1, join_edif(toks[:i + 1] + [o] + toks[i + 2:])))
     for i, t in enumerate(toks[:-1]):
         tl = t.lower()
         if tl in ("cellref", "libraryref", "instanceref", "viewref") and toks[i + 1] not in "()":
